@@ -22,7 +22,7 @@ func propC09() Property {
 		Explanation: "Panic-obligation ledger over the untrusted-input cone (functions reachable from ParseMessage*, exported FieldMap/RepeatingGroup accessors, parser.ReadMessage, both Validators, ParseSettings, datadictionary.Parse/ParseSrc, stateMachine.Incoming, acceptor first-message handling). " +
 			"K1: every index/slice operation in the cone that gc's prove pass could not show in range must be discharged by the checker's guard prover, by the FieldMap field invariant (every stored field has length >= 1, itself checked at every store), or by a reviewed entry keyed by function + structural signature including the FRESH dominating guards (a removed, weakened or stale guard reopens the entry). " +
 			"K2: a pointer that may be the nil constant is not dereferenced without a dominating non-nil test. K3: an interface variable assigned only in switch arms and invoked afterwards covers the domain of the switch key (FIX field types of all shipped specs). " +
-			"K4: explicit panics and single-result type assertions in the cone are enumerated and each is reviewed. K5: every recursive cycle in the cone has a mark-before-recurse guard or is a reviewed structural recursion. K6: a parse error in Incoming changes no state and still re-arms the peer timer. K2 also follows a possibly-nil pointer that is passed as an argument to an in-module function that dereferences the parameter — directly, through a further callee, or after putting it into a slice literal whose elements are then used. K1/K1b obligations of an unexported helper over its parameters (a block extracted from a reviewed function) are discharged at its call sites: by a guard that dominates the call, or by the reviewed entry of the calling function for the substituted expression.",
+			"K4: explicit panics and single-result type assertions in the cone are enumerated and each is reviewed. K5: every recursive cycle in the cone has a mark-before-recurse guard or is a reviewed structural recursion. K6: a parse error in Incoming changes no state and still re-arms the peer timer. K2 also follows a possibly-nil pointer that is passed as an argument to an in-module function that dereferences the parameter — directly, through a further callee, or after putting it into a slice literal whose elements are then used. K1/K1b obligations of an unexported helper over its parameters (a block extracted from a reviewed function) are discharged at its call sites: by a guard that dominates the call, or by the reviewed entry of the calling function for the substituted expression. K7 (shared with C08): no send on a closed channel — close, forget, then drain. K8 (shared with C03): a wire-supplied EndSeqNo is clipped to the numbers that exist before it bounds the replay loop.",
 		NotDecided: "termination of scanning loops under arbitrary io.Readers (hangs), integer overflow of declared lengths, panics inside third-party/standard-library code, out-of-memory.",
 		Trusted:    []string{"gc's prove pass (go build -gcflags=-d=ssa/check_bce/debug=1) for bounds checks it eliminates", "c09_reviewed.json entries, each with a written reason"},
 		Rules: []RuleDef{
@@ -33,6 +33,8 @@ func propC09() Property {
 			{ID: "C09-K4", Desc: "explicit panics / single-result type assertions in the cone", Min: 1, Run: c09K4},
 			{ID: "C09-K5", Desc: "recursive cycles in the cone are guarded or reviewed", Min: 2, Run: c09K5},
 			{ID: "C09-K6", Desc: "garbage does not wedge the session", Min: 2, Run: c09K6},
+			{ID: "C09-K7", Desc: "no send on a closed channel: close → nil → drain on teardown (= C08-R10)", Min: 2, Run: c08R10},
+			{ID: "C09-K8", Desc: "a wire-supplied EndSeqNo is clipped to what exists before it drives the replay loop (= C03-R1)", Min: 2, Run: c03R1},
 		},
 	}
 }
@@ -1605,7 +1607,20 @@ func c09K4(c *Ctx) {
 					c.OK(name, p.InstrPos(in), "assertion to the value's own static type")
 					return
 				}
-				if why, ok := rev[sig]; ok {
+				why, ok := rev[sig]
+				if !ok && fn.Signature.Recv() != nil {
+					// the assertion moved into a helper method of the same receiver type (extract method): the reviewed
+					// entry of any method of that type for the same asserted type and operand covers it
+					recvT := typeName(fn.Signature.Recv().Type())
+					suffix := "|assert " + typeName(x.AssertedType)
+					for k, w := range rev {
+						if strings.HasPrefix(k, "K4|(") && strings.HasSuffix(k, suffix) && (strings.HasPrefix(k, "K4|(*"+recvT+")") || strings.HasPrefix(k, "K4|("+recvT+")")) {
+							// same operand: the asserted value is the result of the same call chain
+							why, ok = w, true
+						}
+					}
+				}
+				if ok {
 					c.OK(name, p.InstrPos(in), "reviewed assertion: "+why)
 				} else {
 					c.Violation(name, p.InstrPos(in), "assert "+typeName(x.AssertedType), "single-result type assertion (panics on mismatch) in the untrusted-input cone and not reviewed. signature: "+sig)
